@@ -815,6 +815,28 @@ pub fn descriptor_models_ctx(u: &Universe, n_seg: usize, n_shwsh: usize, n_leg: 
             }
         }
     }
+    // a spendable script that the lift refuses (height and time locks combined on one path, next
+    // to a plain key path): alone, and as a leaf at every position of 2- and 3-leaf trees — a
+    // refusal of one leaf must make the whole descriptor unliftable, never drop the leaf
+    {
+        let pkl = |k: &str| T::Check(Box::new(T::PkK(k.into())));
+        let lm = |k: &str| {
+            T::OrD(
+                Box::new(pkl(k)),
+                Box::new(T::AndV(Box::new(T::Verify(Box::new(T::After(10)))), Box::new(T::After(500_000_010)))),
+            )
+        };
+        out.push(D::Wsh(lm("K1")));
+        out.push(D::Tr("KI".into(), vec![(0, lm("K1"))]));
+        out.push(D::Tr("KI".into(), vec![(1, lm("K1")), (1, pkl("K2"))]));
+        out.push(D::Tr("KI".into(), vec![(1, pkl("K2")), (1, lm("K1"))]));
+        for pos in 0..3usize {
+            for shape in [[1u8, 2, 2], [2, 2, 1]] {
+                let ls: Vec<(u8, T)> = (0..3).map(|i| (shape[i], if i == pos { lm("K1") } else { pkl(&format!("K{}", i + 2)) })).collect();
+                out.push(D::Tr("KI".into(), ls));
+            }
+        }
+    }
     // multi-leaf trees: ALL ordered pairs of B leaves <= n_tree2 nodes (2-leaf tree), and ALL
     // ordered triples of B leaves <= n_tree3 nodes in both 3-leaf shapes. Keys distinct across leaves.
     let shift = |t: &T, off: usize| {
